@@ -129,6 +129,58 @@ def sec1_spec(B):
     return False, 'none', None, None
 
 
+def _t_recover_factory(prog, gl):
+    def mk(ctx):
+        m = new_machine(prog, ctx, gl, value_model=True)
+        install_field_contracts(m)
+        return m
+
+    def t_recover(sub):
+        def h(ctx):
+            m = mk(ctx)
+            rl = sym_limbs('r')
+            r = tm.lift(cat_limbs(rl), 256)
+            ctx.assume(tm.ult(r, N_ORDER, 256))
+            rid = tm.var('id', 8)
+            sc = m.new_obj(None, tree=[[], list(rl)], label='xScalar')
+            try:
+                pt, err = m.call(ROOT + 'RecoverPoint', [X.Ptr(sc, ()), rid])
+            except X.GoPanic:
+                ctx.check(False, 'panic-branch-unreachable')
+                return 'panic'
+            sub.note_machine(m)
+            hi = tm.eq(tm.bv('and', rid, 2, 8), 2, 8)
+            xw = tm.bv('add', tm.zext(r, 258), tm.ite(hi, N_ORDER, 0, 258), 258)   # r + (id>>1)*n over the integers
+            x = tm.trunc(xw, 256)
+            yy = curve_rhs(x)
+            ctx.assume(tm.implies(is_square(yy), tm.bnot(tm.eq(sqrt_of(yy), 0, 256))))
+            ctx.assume(tm.ult(sqrt_of(yy), P, 256))
+            spec = tm.band_all([tm.ult(rid, 4, 8), tm.ult(xw, P, 258), is_square(yy)])
+            if err is None:
+                ctx.check(spec, 'bv:accepted-implies-id<4,x=r+(id>>1)n<p,on-curve')
+                st = pt_state(pt.obj)
+                ctx.check(tm.band_all([tm.eq(st[0], x, 256), tm.eq(st[2], 1, 256), tm.eq(st[3], True, 0)]), 'bv:x-coordinate')
+                ctx.check(tm.eq(tm.extract(tm.lift(st[1], 256), 0, 0), tm.extract(rid, 0, 0), 1), 'bv:y-parity=id&1')
+                ctx.check(tm.eq(fmul(st[1], st[1]), yy, 256) if False else True, 'skip')
+                return 'accept'
+            ctx.check(tm.bnot(spec), 'bv:rejected-implies-not-spec')
+            ctx.check(pt.is_nil(), 'no-object-on-error')
+            return 'reject'
+        paths = sub.explore('recover/RecoverPoint', h, mode='bv')
+        sub.add('recover/RecoverPoint/witness', [], {p.value for p in paths} == {'accept', 'reject'})
+
+    return t_recover
+
+
+def add_recover_task(chk, prog, gl, tasks):
+    chk.summaries.update(models.VALUE_MODEL_SUMMARY)
+    chk.summaries.update(SUMMARY)
+    tasks.append(('recover', _t_recover_factory(prog, gl)))
+    b = 'RecoverPoint (real code, full width): all r in [0,n), all 256 values of the recovery id'
+    if b not in chk.bounds:
+        chk.bounds.append(b)
+
+
 def main():
     chk = Check('C06')
     prog = load_prog()
@@ -220,42 +272,8 @@ def main():
     if not only or 'coords' in only:
         tasks.append(('coords', t_coords))
 
-    def t_recover(sub):
-        def h(ctx):
-            m = mk(ctx)
-            rl = sym_limbs('r')
-            r = tm.lift(cat_limbs(rl), 256)
-            ctx.assume(tm.ult(r, N_ORDER, 256))
-            rid = tm.var('id', 8)
-            sc = m.new_obj(None, tree=[[], list(rl)], label='xScalar')
-            try:
-                pt, err = m.call(ROOT + 'RecoverPoint', [X.Ptr(sc, ()), rid])
-            except X.GoPanic:
-                ctx.check(False, 'panic-branch-unreachable')
-                return 'panic'
-            sub.note_machine(m)
-            hi = tm.eq(tm.bv('and', rid, 2, 8), 2, 8)
-            xw = tm.bv('add', tm.zext(r, 258), tm.ite(hi, N_ORDER, 0, 258), 258)   # r + (id>>1)*n over the integers
-            x = tm.trunc(xw, 256)
-            yy = curve_rhs(x)
-            ctx.assume(tm.implies(is_square(yy), tm.bnot(tm.eq(sqrt_of(yy), 0, 256))))
-            ctx.assume(tm.ult(sqrt_of(yy), P, 256))
-            spec = tm.band_all([tm.ult(rid, 4, 8), tm.ult(xw, P, 258), is_square(yy)])
-            if err is None:
-                ctx.check(spec, 'bv:accepted-implies-id<4,x=r+(id>>1)n<p,on-curve')
-                st = pt_state(pt.obj)
-                ctx.check(tm.band_all([tm.eq(st[0], x, 256), tm.eq(st[2], 1, 256), tm.eq(st[3], True, 0)]), 'bv:x-coordinate')
-                ctx.check(tm.eq(tm.extract(tm.lift(st[1], 256), 0, 0), tm.extract(rid, 0, 0), 1), 'bv:y-parity=id&1')
-                ctx.check(tm.eq(fmul(st[1], st[1]), yy, 256) if False else True, 'skip')
-                return 'accept'
-            ctx.check(tm.bnot(spec), 'bv:rejected-implies-not-spec')
-            ctx.check(pt.is_nil(), 'no-object-on-error')
-            return 'reject'
-        paths = sub.explore('recover/RecoverPoint', h, mode='bv')
-        sub.add('recover/RecoverPoint/witness', [], {p.value for p in paths} == {'accept', 'reject'})
     if not only or 'recover' in only:
-        tasks.append(('recover', t_recover))
-        chk.bounds.append('RecoverPoint: all r in [0,n), all 256 values of the recovery id')
+        add_recover_task(chk, prog, gl, tasks)
 
     def t_split(sub):
         def h(ctx):
